@@ -1896,6 +1896,17 @@ func (r *raft) restore(s *pb.Snapshot) bool {
 	if s.GetMetadata().GetIndex() <= r.raftLog.committed {
 		return false
 	}
+	if r.raftLog.applying > r.raftLog.applied {
+		// Committed entries have been handed to the application and are not
+		// yet acknowledged as applied. Replacing the log and the configuration
+		// underneath them would make a later ApplyConfChange for one of those
+		// entries act on the snapshot's configuration, which already contains
+		// it (a panic in confchange, or a configuration no other node has).
+		// Decline for now, like a stale snapshot; the leader retries.
+		r.logger.Infof("%x [applying: %d, applied: %d] declined snapshot [index: %d, term: %d] while entries are being applied",
+			r.id, r.raftLog.applying, r.raftLog.applied, s.GetMetadata().GetIndex(), s.GetMetadata().GetTerm())
+		return false
+	}
 	if r.state != StateFollower {
 		// This is defense-in-depth: if the leader somehow ended up applying a
 		// snapshot, it could move into a new term without moving into a
